@@ -107,6 +107,34 @@ pub fn run(reg: &dyn Registry, ctx: &Ctx) -> Outcome {
         })
         .collect();
 
+    // value-directed states of the one state-hiding generator whose state is the seed itself: XorShiftRng
+    // states that have, or reach after one or two steps, a special word pattern (a zero word, equal words,
+    // words summing to zero, ...): the text must be the one every other seed gives at the same position
+    if let Some(ty) = reg.get("XorShiftRng") {
+        let baseline = {
+            let g = ty.from_seed(&alphabet::bg_bytes(ctx.seed, 0x17A, 16));
+            (g.debug(false), g.debug(true))
+        };
+        let specials = super::c18aux::for_type(ty, ctx.seed ^ 0x17);
+        ctx.set("xorshift_value_directed_states", specials.len() as u64);
+        for (_, _, seed) in specials {
+            let mut g = ty.from_seed(&seed);
+            for step in 0..3 {
+                ctx.add("states", 1);
+                let t = (g.debug(false), g.debug(true));
+                if t != baseline {
+                    ctx.violation(
+                        "C17:XorShiftRng:seed-dependent",
+                        &format!("XorShiftRng: Debug text after {} next_u32 calls from seed {} is {:?}, every other seed gives {:?}", step, hex(&seed), t.0, baseline.0),
+                        json!({"kind":"debug-pair","type":"XorShiftRng","seed_a":hex(&alphabet::bg_bytes(ctx.seed, 0x17A, 16)),"seed_b":hex(&seed),"ops":ops_json(&vec![Op::U32; step])}),
+                    );
+                    break;
+                }
+                g.next_u32();
+            }
+        }
+    }
+
     // rare reachable events (found on the reference model): the Debug text at / around the special word
     // must equal that of another seed at the same position (Rng and core)
     {
